@@ -408,7 +408,10 @@ queue_shim = _mk_module("queue", _real_queue, Queue=Queue)
 # time
 # ======================================================================
 def _time():
-    return sched().now
+    # like a real clock, two readings are never exactly equal (sub-microsecond drift; whole seconds are unaffected)
+    s = sched()
+    s.now += 2e-6
+    return s.now
 
 
 def _sleep(d):
